@@ -164,6 +164,19 @@ def stream(ctx, g):
         c["B"] = K.tojson(K.fromjson(c["B"], True) * (1 + 0.5j))      # keep a genuinely complex right-hand side
         c["mixed"] = True
         out.append(c)
+    # D'. the same promotion on TRUNCATED runs (m < n), where a projection coefficient that loses its imaginary part no longer
+    # hides behind convergence (seeded change c13_m3: Gram-Schmidt buffer allocated in the operator's dtype), with complex
+    # right-hand sides and with a complex start vector, one and several columns
+    for n in ([3, 5, 8] if not ctx.thorough else [2, 3, 4, 5, 6, 8, 10, 12]):
+        for M in sorted(set([1, 2, n - 1])):
+            if M < 1 or M >= n:
+                continue
+            for x0 in ("zero", "random"):
+                single = bool(g.integers(2))
+                c = make_case(g, n, "nonsym", True, M, 1e-7, ["generic"] if single else ["generic", "generic"], x0, single, stream="D")
+                c["A"] = K.tojson(K.fromjson(c["A"], True).real.astype(complex))
+                c["mixed"] = True
+                out.append(c)
     return out + special_cases()
 
 
